@@ -393,6 +393,12 @@ class Engine:
                 self.model = self.prefix_model  # found when this prefix was queued: a witness of base+pc
             return d
         ev = self.witness().eval(expr, model_completion=True)
+        if not (z3.is_true(ev) or z3.is_false(ev)) and isinstance(self.model, DictModel):
+            # the explicit witness predates symbols created later on this path (fresh atoms): complete it with generic values and re-verify
+            ext = self.model.completed()
+            if ext is not None and all(z3.is_true(ext.eval(c)) for c in list(CTX.base) + list(self.pc)):
+                self.model = ext
+                ev = ext.eval(expr)
         if not (z3.is_true(ev) or z3.is_false(ev)):
             r, m = self._check([expr], self.branch_timeout_ms)
             if r == "unknown":
@@ -497,6 +503,15 @@ class DictModel:
 
     def eval(self, expr, model_completion=True):
         return z3.simplify(z3.substitute(expr, *self._subs))
+
+    def completed(self):
+        missing = [n for n in CTX.names + CTX.pool[: CTX.pool_used] if n not in self.values]
+        if not missing:
+            return None
+        vals = dict(self.values)
+        for i, n in enumerate(missing):
+            vals[n] = Fraction(33 + (5 * i) % 29, 64)
+        return DictModel(vals)
 
 
 def _candidate_models(base_vals):
